@@ -6,6 +6,10 @@ comparison of the really emitted functions, run in mcvm, against it.
 
 Program tree (plain tuples):
   ("say", text) | ("set", var, k) | ("add", var, k) | ("sub", var, k) | ("call", fname)   `fname();`
+  ("ret", form)   `return …;`  form = "0" `return;` | "1" `return 1;` | "true" `return true;` | "fail" `return fail;`
+                  | ("say", text) `return run say "text";` | ("call", fname) `return run fname();`
+                  Minecraft's `return` leaves the FUNCTION IT IS WRITTEN IN: JMC's meaning of the statement is therefore
+                  "leave the innermost block that is compiled to a function of its own" (see Interp)
   ("if", [(cond, body), ...], else_body | None)
   ("while", cond, body) | ("dowhile", body, cond) | ("for", init_cmds, cond, step_cmds, body)
   ("expand", cond, body)     `if (cond) expand { body }`: every statement of the body is guarded by its own fresh
@@ -194,6 +198,8 @@ def stmt_src(s, ind=1):
         return f"{pad}{s[1]} -= {s[2]};"
     if k == "call":
         return f"{pad}{s[1]}();"
+    if k == "ret":
+        return f"{pad}{ret_src(s[1])};"
     if k == "if":
         out = []
         for i, (c, body) in enumerate(s[1]):
@@ -215,6 +221,30 @@ def stmt_src(s, ind=1):
     raise ValueError(k)
 
 
+RET_FORMS = ["0", "1", "true", "fail", ("say", "r"), "1"]
+
+
+def ret_src(form):
+    if form == "0":
+        return "return"
+    if isinstance(form, str):
+        return f"return {form}"
+    if form[0] == "say":
+        return f'return run say "{form[1]}"'
+    return f"return run {form[1]}()"
+
+
+def ret_line(form, ns="TEST"):
+    """the command JMC emits for the statement"""
+    if form in ("0", "1", "fail"):
+        return f"return {form}"
+    if form == "true":
+        return "return 1"
+    if form[0] == "say":
+        return f"return run say {form[1]}"
+    return f"return run function {ns}:{form[1]}"
+
+
 def body_src(body, ind=1):
     return "\n".join(stmt_src(s, ind) for s in body)
 
@@ -226,7 +256,7 @@ class NB(list):
     a JSON round trip drops the marker, replays store the source text)."""
 
 
-NB_KINDS = ("say", "set", "add", "sub", "call", "if", "while", "for")
+NB_KINDS = ("say", "set", "add", "sub", "call", "ret", "if", "while", "for")
 
 
 def nb_ok(body, is_else=False):
@@ -286,12 +316,14 @@ def cmd_term(s, cert):
         return f"CRemove {score_term(s[1], cert)} {coq_z(s[2])}"
     if k == "call":
         return f"CCall {coq_str('TEST:' + s[1])}"
+    if k == "ret":
+        return f"COther {coq_str(ret_line(s[1]))}"
     raise ValueError(k)
 
 
 def stmt_term(s, cert):
     k = s[0]
-    if k in ("say", "set", "add", "sub", "call"):
+    if k in ("say", "set", "add", "sub", "call", "ret"):
         return f"SCmd ({cmd_term(s, cert)})"
     if k == "if":
         b = "BNil"
@@ -355,6 +387,10 @@ class Diverge(Exception):
     pass
 
 
+class Return(Exception):
+    """a `return` statement was executed: unwinds to the innermost block that JMC compiles to a function of its own"""
+
+
 def atom_true(a, sc, var):
     v, op, r = a
     x = sc.get((v, var))
@@ -403,6 +439,31 @@ class Interp:
         for s in body:
             self.stmt(s)
 
+    def block(self, body, own=True):
+        """run a body; own = JMC compiles it to a function of its own, which is what a `return` inside it leaves
+        (a body that is NOT a function of its own — a one-line body inlined after `run` — hands the return on to the
+        function its line stands in)"""
+        try:
+            self.run(body)
+        except Return:
+            if not own:
+                raise
+
+    @staticmethod
+    def last_own(s):
+        """is the last part of a chain (else body / unwrapped last else-if) or the body of a lone `if` a function
+        of its own?  A one-line body is inlined after `run`: in the enclosing function for a lone `if` and for a chain
+        with a single wrapped branch (unless the last else-if has helper lines: they and the guarded body get a
+        function), in the last stage function for longer chains (nothing follows it there: the chain simply ends)."""
+        n, els = len(s[1]), s[2]
+        last = els if els is not None else s[1][-1][1]
+        if lines_of(last) != 1:
+            return True
+        if n == 1 and els is None:
+            return False
+        wrapped = n if els is not None else n - 1
+        return wrapped >= 2 or (els is None and cond_pre_lines(s[1][-1][0]) > 0)
+
     def stmt(self, s):
         k = s[0]
         sc, var = self.sc, self.var
@@ -415,41 +476,64 @@ class Interp:
         elif k == "sub":
             sc[(s[1], var)] = wrap(sc.get((s[1], var), 0) - s[2])
         elif k == "call":
-            self.tick()
-            self.depth += 1
-            if self.depth > 40:
-                raise Diverge()
-            self.run(self.funcs[s[1]])
-            self.depth -= 1
+            self.call(s[1])
+        elif k == "ret":
+            form = s[1]
+            if not isinstance(form, str):
+                if form[0] == "say":
+                    self.trace.append(form[1])
+                else:
+                    self.call(form[1])
+            raise Return()
         elif k == "if":
-            for c, body in s[1]:
+            n, els = len(s[1]), s[2]
+            wrapped = n if els is not None else n - 1
+            for i, (c, body) in enumerate(s[1]):
                 if cond_true(c, sc, var):
-                    self.run(body)
+                    self.block(body, True if i < wrapped else self.last_own(s))
                     return
-            if s[2] is not None:
-                self.run(s[2])
+            if els is not None:
+                self.block(els, self.last_own(s))
         elif k == "expand":
             for x in s[2]:
                 if cond_true(s[1], sc, var):
                     self.stmt(x)
         elif k == "while":
+            # the loop function is `body; re-test`: a return in the body leaves it before the re-test (like `break`)
             while cond_true(s[1], sc, var):
                 self.tick(); self.iters += 1
-                self.run(s[2])
+                try:
+                    self.run(s[2])
+                except Return:
+                    break
         elif k == "dowhile":
             while True:
                 self.tick(); self.iters += 1
-                self.run(s[1])
+                try:
+                    self.run(s[1])
+                except Return:
+                    break
                 if not cond_true(s[2], sc, var):
                     break
         elif k == "for":
             self.run(s[1])
             while cond_true(s[2], sc, var):
                 self.tick(); self.iters += 1
-                self.run(s[4])
-                self.run(s[3])
+                try:
+                    self.run(s[4])
+                    self.run(s[3])
+                except Return:
+                    break
         else:
             raise ValueError(k)
+
+    def call(self, name):
+        self.tick()
+        self.depth += 1
+        if self.depth > 40:
+            raise Diverge()
+        self.block(self.funcs[name], True)
+        self.depth -= 1
 
 
 def prog_vars(body, acc=None):
@@ -481,8 +565,36 @@ def prog_vars(body, acc=None):
     return acc
 
 
+class _Ret(Exception):
+    pass
+
+
+class RVM(VM):
+    """mcvm + Minecraft's `return`: `return <value>` / `return fail` / `return run <command>` end the function they are
+    written in (the rest of its lines is skipped), nothing else"""
+
+    def run_func(self, name, margs=None):
+        d = self.depth
+        try:
+            return VM.run_func(self, name, margs)
+        except _Ret:
+            self.depth = d
+            return True
+
+    def cmd(self, line):
+        if line == "return" or line.startswith("return "):
+            self.steps += 1
+            rest = line[7:]
+            if rest.startswith("run "):
+                self.cmd(rest[4:])
+            elif rest != "fail" and not __import__("re").fullmatch(r"-?\d+", rest):
+                raise Invalid(line)
+            raise _Ret()
+        return VM.cmd(self, line)
+
+
 def run_real(fns, var, init, ns="TEST", max_steps=200000, max_depth=3000):
-    vm = VM(fns, ns=ns, max_steps=max_steps, max_depth=max_depth)
+    vm = RVM(fns, ns=ns, max_steps=max_steps, max_depth=max_depth)
     vm.s.update(init)
     vm.run_func(f"{ns}:f")
     return vm
@@ -497,7 +609,7 @@ def semantic_failure(body, fns, cert, states, ns="TEST", budget=400, funcs=None)
     for init in states:
         it = Interp(init, var, budget, funcs)
         try:
-            it.run(body)
+            it.block(body)
         except Diverge:
             skipped += 1
             continue
@@ -862,6 +974,20 @@ def random_program(rng, depth=3, loops=True, nvars=3, braceless_loops=False):
     return flatten_seq(body)
 
 
+def sprinkle_returns(rng, body, p=0.3):
+    """insert `return …;` statements into the branch / else bodies of the chains of `body` (in place), at random
+    positions; -> number inserted"""
+    n = 0
+    for s in body:
+        if s[0] == "if":
+            for b in [bb for _c, bb in s[1]] + ([s[2]] if s[2] is not None else []):
+                n += sprinkle_returns(rng, b, p)
+                if rng.random() < p:
+                    b.insert(rng.randrange(len(b) + 1), ("ret", rng.choice(RET_FORMS[:5])))
+                    n += 1
+    return n
+
+
 def insert_calls(rng, body, callee, n=1):
     """the body with n `callee();` statements inserted at random places (also inside branch and loop bodies)"""
     def places(b, acc):
@@ -1148,14 +1274,14 @@ def share_strings(cases: list[str]) -> tuple[str, list[str]]:
 
 
 def eval_cases_fast(prop: str, header: str, cases: list[str], per_file: int = 300, prefix: str = "cases",
-                    timeout: int = 900, clean: bool = True):
+                    timeout: int = 900, clean: bool = True, checker: str = "mismatches"):
     """like lib.eval_cases; returns (mismatching global indices, errors)"""
     from lib import run_coq_files, parse_nat_list
     files = []
     for fi, start in enumerate(range(0, len(cases), per_file)):
         table, chunk = share_strings(cases[start:start + per_file])
         body = header + table + "Definition cases := [\n" + ";\n".join(chunk) + "\n].\n" \
-            + "Eval vm_compute in mismatches cases.\n"
+            + f"Eval vm_compute in {checker} cases.\n"
         files.append((f"{prefix}_{fi}.v", body))
     outs = run_coq_files(prop, files, timeout=timeout, clean=clean)
     bad, errs = [], []
@@ -1228,7 +1354,7 @@ def lines_of(body):
     n = 0
     for s in body:
         k = s[0]
-        if k in ("say", "set", "add", "sub", "call"):
+        if k in ("say", "set", "add", "sub", "call", "ret"):
             n += 1
         elif k == "if":
             if len(s[1]) == 1 and s[2] is None:
@@ -1372,11 +1498,49 @@ def minimise(body, cert, fail, rounds=10, per_round=80, more=None, order=None):
     return best, best_fail, best_more
 
 
+PROPOSED_FILES = ["reports/misc-known-findings-4.json"]      # proposals not yet merged into known_findings.json
+
+
+def known_entries(prop):
+    """entries of known_findings.json for `prop` plus the proposed ones (reports/…json) the integrator has not merged;
+    a proposal is deleted from that file when its fix is committed, so that a regression is a VIOLATION"""
+    import json
+    from lib import VERIF, known_for
+    out = {f["id"]: f for f in known_for(prop)}
+    import os
+    for rel in ([] if os.environ.get("VERIF_NO_PROPOSED") else PROPOSED_FILES):   # VERIF_NO_PROPOSED=1: the state after the merge
+        p = VERIF / rel
+        if p.exists():
+            try:
+                for f in json.loads(p.read_text()).get("findings", []):
+                    if f.get("property") == prop:
+                        out.setdefault(f["id"], f)
+            except ValueError:
+                pass
+    return out
+
+
+def unisolated_return(fns, cert):
+    """signature of finding C04-return-in-branch in the emitted code: a private if_else function that contains a line
+    with the word `return` / `$return` AND ends with the line that sets __if_else__ to 1 — a `return` in the branch body
+    leaves the function before the flag is set.  -> names of such functions"""
+    flag_line = f"scoreboard players set __if_else__ {cert['VAR']} 1"
+    out = []
+    for name, text in fns.items():
+        if not name.startswith(cert["PRIVATE"] + "/if_else/"):
+            continue
+        lines = text.split("\n")
+        if lines[-1] == flag_line and any(w in ("return", "$return") for l in lines[:-1] for w in l.split(" ")):
+            out.append(name)
+    return out
+
+
 def check_programs(ck, items, tier, what):
     """items: list of dict(prog=…, cert=index, stream=…).  Compiles with the real compiler, evaluates the
     correspondence in Coq, runs the search on every case, reports violations.  Returns statistics."""
     from lib import compile_batch, eval_strings
-    jobs = [dict(src=jmc_src(it), cert=cert_text(CERTS[it["cert"]])) for it in items]
+    jobs = [dict(src=jmc_src(it), cert=cert_text(CERTS[it["cert"]]), **({"pack_format": it["pack_format"]} if it.get("pack_format") else {}))
+            for it in items]
     results = compile_batch(jobs, chunk=100)
     terms = [case_term(it, CERTS[it["cert"]], r) for it, r in zip(items, results)]
     bad, errs = eval_cases_fast(ck.prop, COQ_HEADER, terms, per_file=250)
@@ -1406,6 +1570,42 @@ def check_programs(ck, items, tier, what):
         iters_hist[key] = iters_hist.get(key, 0) + 1
         if f:
             sem_fail[i] = f
+
+    # failing / differing cases that are a listed (or proposed, not yet merged) known finding: the emitted code shows the
+    # defect's signature AND the whole emitted text is exactly the lowering before the repair (Run.C04.Pinned), so that
+    # nothing else is wrong with the case
+    kf = known_entries("C04").get("C04-return-in-branch")
+    excused = {}
+    if kf:
+        cand = [i for i in sorted(set(sem_fail) | bad) if results[i]["ok"]
+                and unisolated_return(real_functions(results[i]), CERTS[items[i]["cert"]])]
+        if cand:
+            notp, perrs = eval_cases_fast(ck.prop, COQ_HEADER, [terms[i] for i in cand], per_file=250, prefix="pinned",
+                                          clean=False, checker="not_pinned")
+            for e in perrs:
+                ck.violation(dict(kind="correspondence-file-failed", log=e), no_input=True)
+            notp = set(notp) if not perrs else set(range(len(cand)))
+            for j, i in enumerate(cand):
+                if j not in notp:
+                    excused[i] = True
+                    ck.known(kf["id"], kf["what"])
+    # (item 3 of the misc triage) a pending chain directly before a nested function declaration is emitted into the DECLARED
+    # function's file: the case comes from the stream built for it, and the declared function's file is "<other lines>" +
+    # its own body
+    kf2 = known_entries("C04").get("C04-pending-chain-before-nested-declaration")
+    excused2 = 0
+    if kf2:
+        for i in sorted(set(sem_fail) | bad):
+            d = items[i].get("decl")
+            if d and d["kind"] == "function" and results[i]["ok"]:
+                g = real_functions(results[i]).get("g", "")
+                if g != d["gtext"] and g.endswith("\n" + d["gtext"]):
+                    excused[i] = True
+                    excused2 += 1
+                    ck.known(kf2["id"], kf2["what"])
+    if excused:
+        sem_fail = {i: f for i, f in sem_fail.items() if i not in excused}
+        bad = {i for i in bad if i not in excused}
 
     reported = 0
     seen_sig = set()
@@ -1446,7 +1646,7 @@ def check_programs(ck, items, tier, what):
     for it in items:
         streams[it["stream"]] = streams.get(it["stream"], 0) + 1
     return dict(results=results, bad=bad, sem_fail=sem_fail, n_runs=n_runs, n_skipped=n_skipped, tags=tags,
-                streams=streams, iters_hist=iters_hist,
+                streams=streams, iters_hist=iters_hist, known_return_in_branch=len(excused) - excused2, known_pending_chain_before_declaration=excused2,
                 n_errors=sum(1 for r in results if not r["ok"]))
 
 
@@ -1474,7 +1674,7 @@ def replay_file(path, prop):
     f, *_ = semantic_failure(body, real_functions(res), cert, [init], funcs=more)
     it = Interp(init, cert["VAR"], funcs=more)
     try:
-        it.run(body)
+        it.block(body)
         print("--- init", rp["failure"].get("init"), "\n--- expected trace", it.trace)
     except Diverge:
         print("source program diverges from this state")
@@ -1492,6 +1692,8 @@ def to_tuples(x):
         k = s[0]
         if k in ("say", "set", "add", "sub", "call"):
             return tuple(s)
+        if k == "ret":
+            return ("ret", s[1] if isinstance(s[1], str) else tuple(s[1]))
         if k == "if":
             return ("if", [(cond(c), body(b)) for c, b in s[1]], None if s[2] is None else body(s[2]))
         if k in ("while", "expand"):
